@@ -122,7 +122,7 @@ impl Parser {
                 .user_data()
                 .get_type_of_executing_class_in_nth_frame(0)
                 .unwrap();
-            let class_name = class_type.arced_name();
+            let class_name = class_type.arced_bytecode_name();
 
             Constructor::default_constructor(path_str, class_name)
         });
